@@ -114,6 +114,9 @@ type c11Server struct {
 	Universe  []qname // request-name universe (9 names)
 	// SelfOnly: Depth does not extend the scope (helper serving a single resource)
 	SelfOnly bool
+	// SlashInsensitive: the backend names a collection with or without a trailing slash depending on how it was
+	// asked; both spellings address the same resource and count as one
+	SlashInsensitive bool
 }
 
 func c11MemFS() (*harness.MemFS, []resExpect) {
@@ -170,6 +173,13 @@ func c11Servers() []c11Server {
 	_, fres := c11MemFS()
 	out = append(out, c11Server{Name: "webdav-memfs", Handler: func() http.Handler { fs, _ := c11MemFS(); return &webdav.Handler{FileSystem: fs} }, Resources: fres,
 		Universe: append([]qname{dav("resourcetype"), dav("getcontentlength"), dav("getlastmodified"), dav("getcontenttype"), dav("getetag")}, c11Foreign...)})
+
+	// the same tree behind a FileSystem whose Stat echoes the spelling it was asked for (LocalFileSystem's habit)
+	out = append(out, c11Server{Name: "webdav-memfs-echo", SlashInsensitive: true, Handler: func() http.Handler {
+		fs, _ := c11MemFS()
+		fs.EchoStat = true
+		return &webdav.Handler{FileSystem: fs}
+	}, Resources: fres, Universe: out[0].Universe})
 
 	// CalDAV
 	mt := time.Date(2022, 1, 2, 3, 4, 5, 0, time.UTC)
@@ -469,6 +479,9 @@ func c11Judge(sv c11Server, c c11Case) (clause, detail string) {
 		if err != nil {
 			return "href", r.Hrefs[0]
 		}
+		if sv.SlashInsensitive && hp != "/" {
+			hp = strings.TrimSuffix(hp, "/")
+		}
 		if seen[hp] {
 			return "duplicate-response", hp
 		}
@@ -611,7 +624,7 @@ func init() {
 						}
 					}
 					// a collection of the file server addressed in its trailing-slash spelling
-					if sv.Name == "webdav-memfs" && res.Path != "/" && res.Has[dav("resourcetype")] != nil && !strings.HasSuffix(res.Path, "/") && res.Optional[dav("getetag")] {
+					if strings.HasPrefix(sv.Name, "webdav-memfs") && res.Path != "/" && res.Has[dav("resourcetype")] != nil && !strings.HasSuffix(res.Path, "/") && res.Optional[dav("getetag")] {
 						for _, f := range []string{"empty", "allprop", "propname"} {
 							cases = append(cases, c11Case{Server: sv.Name, Target: res.Path, Depth: d, Form: f, Slash: true})
 							svIdx = append(svIdx, si)
